@@ -7,6 +7,9 @@ use wacv::Rng;
 pub enum TK {
     Val,
     Res,
+    /// a named alias of a borrow handle (`type b = borrow<r>;`, `type c = b;`): usable where a
+    /// borrow is (function parameters), never inside another type
+    Bor,
 }
 
 #[derive(Clone, Default)]
@@ -21,6 +24,9 @@ impl Scope {
     }
     fn ress(&self) -> Vec<&str> {
         self.tys.iter().filter(|t| t.1 == TK::Res).map(|t| t.0.as_str()).collect()
+    }
+    fn bors(&self) -> Vec<&str> {
+        self.tys.iter().filter(|t| t.1 == TK::Bor).map(|t| t.0.as_str()).collect()
     }
     fn has(&self, n: &str) -> bool {
         self.tys.iter().any(|t| t.0 == n)
@@ -168,7 +174,11 @@ impl<'a> Gen<'a> {
                 format!("tuple<{}>", v.join(", "))
             }
             9 | 10 => {
-                if !ress.is_empty() {
+                let bors = sc.bors();
+                if borrow_ok && !bors.is_empty() && self.r.chance(1, 2) {
+                    self.feat("ty:borrow-alias");
+                    bors[self.r.below(bors.len())].to_string()
+                } else if !ress.is_empty() {
                     let rn = ress[self.r.below(ress.len())].to_string();
                     if borrow_ok && self.r.chance(1, 2) {
                         self.feat("ty:borrow");
@@ -276,7 +286,19 @@ impl<'a> Gen<'a> {
                     self.feat("decl:alias");
                     // alias of a value type expression, or of a resource (a second name for it)
                     let ress = sc.ress();
-                    if !ress.is_empty() && self.r.chance(1, 4) {
+                    let bors = sc.bors();
+                    if !bors.is_empty() && self.r.chance(1, 3) {
+                        // a chain: alias of a named borrow alias
+                        let bn = bors[self.r.below(bors.len())].to_string();
+                        self.feat("decl:alias-of-borrow-alias");
+                        out.push_str(&format!("{ind}type {name} = {bn};\n"));
+                        sc.tys.push((name, TK::Bor));
+                    } else if !ress.is_empty() && self.r.chance(1, 3) {
+                        let rn = ress[self.r.below(ress.len())].to_string();
+                        self.feat("decl:alias-of-borrow");
+                        out.push_str(&format!("{ind}type {name} = borrow<{rn}>;\n"));
+                        sc.tys.push((name, TK::Bor));
+                    } else if !ress.is_empty() && self.r.chance(1, 4) {
                         let rn = ress[self.r.below(ress.len())].to_string();
                         self.feat("decl:alias-of-resource");
                         out.push_str(&format!("{ind}type {name} = {rn};\n"));
@@ -640,7 +662,7 @@ pub fn gen_packages(r: &mut Rng, cfg: &GenCfg) -> (Vec<GenPkg>, Vec<&'static str
     let mut deps: Vec<(String, Scope)> = vec![];
     let mut feats = vec![];
     if g.r.chance(1, 3) {
-        let ver = ["1.0.0", "0.2.1", "2.3.4"][g.r.below(3)];
+        let ver = ["1.0.0", "0.2.1", "2.3.4", "1.0.0+b1", "0.2.1-beta.2+build.5"][g.r.below(5)];
         let ver = if g.r.chance(3, 4) { Some(ver) } else { None };
         let mut dcfg = cfg.clone();
         dcfg.max_interfaces = 2;
@@ -654,9 +676,15 @@ pub fn gen_packages(r: &mut Rng, cfg: &GenCfg) -> (Vec<GenPkg>, Vec<&'static str
         feats.extend(dep.features.iter().copied());
         pkgs.push(dep);
     }
-    let ver = if g.r.chance(1, 2) { Some(["1.2.0", "0.1.0", "3.0.0-rc.1"][g.r.below(3)]) } else { None };
-    if ver.is_some() {
+    let ver = if g.r.chance(1, 2) { Some(["1.2.0", "0.1.0", "3.0.0-rc.1", "1.2.0+build.7", "0.4.1-rc.1+build.7", "2.0.0+20260101.sha-abc"][g.r.below(6)]) } else { None };
+    if let Some(v) = ver {
         feats.push("pkg:versioned");
+        if v.contains('+') {
+            feats.push("pkg:version-with-build-metadata");
+        }
+        if v.contains('-') {
+            feats.push("pkg:version-with-pre-release");
+        }
     }
     let main = g.package("t", "p", ver, &deps);
     feats.extend(main.features.iter().copied());
